@@ -270,6 +270,12 @@ func verifyFunc(w *World, fi *FuncInfo, fc *FuncContract, sweep bool) (res *Func
 		ob := vc.oblige("vac:pre-sat", "", fi.Decl.Pos(), tBool(true), tBool(false), "preconditions and type invariants are satisfiable")
 		ob.Expect = "sat"
 	}
+	if fc != nil && fc.IterCanonical {
+		ok, why := iterCanonical(fi)
+		vc.oblige("iter-canonical", "", fi.Decl.Pos(), tBool(true), tBool(ok), "iterator has the canonical range-and-yield shape: "+why)
+		res.Obls = vc.obls
+		return res
+	}
 	if fi.Decl.Body == nil {
 		res.Unsupported = append(vc.unsupported, "no body")
 		return res
